@@ -102,6 +102,19 @@ where
             });
         }
 
+        // A pair naming a slot the restored vector does not have can only come from a
+        // damaged record: refuse before anything is changed.
+        let restored_len = prev_stored_len
+            .checked_add(prev_pushed.len())
+            .ok_or(Error::Overflow)?;
+        if let Some((idx, _)) = modifications.iter().find(|(idx, _)| *idx >= restored_len) {
+            return Err(Error::IndexTooHigh {
+                index: *idx,
+                len: restored_len,
+                name: self.base.name().to_string(),
+            });
+        }
+
         // The record is a delta against the last committed state: start from that
         // state's overlay, not from updates or deletions made since. Otherwise an
         // uncommitted update leaks into the restored state, and an uncommitted
